@@ -332,7 +332,7 @@ func exhaustiveC01(thorough bool, emit func(C01Case) bool) {
 		}
 	}
 	// Very long names (beyond bufio's 4096-byte buffer and beyond 64 KiB).
-	for _, n := range []int{4094, 4095, 4096, 4097, 8192, 65536, 70000} {
+	for _, n := range []int{4094, 4095, 4096, 4097, 8192, 65536, 70000, 1<<21 + 3} {
 		name := bytes.Repeat([]byte("n>m "), n/4+1)[:n]
 		recs := []FastaRec{{Name: name, Seq: gen.Lit(seqOfLen(81))}, {Name: gen.B("after"), Seq: gen.Lit(seqOfLen(5))}}
 		if !emit(C01Case{Recs: recs}) || !emit(C01Case{Recs: recs, Layout: &FastaLayout{Widths: []int{7}, Blanks: []int{0}, CRLF: true}}) {
